@@ -10,3 +10,13 @@ func NewCacheWithClock[V any](opts CacheOptions, clock kclock.WithTicker) *Cache
 	opts.clock = clock
 	return NewCache[V](opts)
 }
+
+// VerifHook, when set, is called between the scan and the bulk delete of
+// Cleanup ("cleanup.scanned") and Reset ("reset.scanned").
+var VerifHook func(point string)
+
+func verifPoint(point string) {
+	if h := VerifHook; h != nil {
+		h(point)
+	}
+}
